@@ -20,7 +20,7 @@ EXPLANATION = (
     'handler derives state from the rebound field; (d) FieldUpdate payload '
     'def-use; (e) completeness of the ancestor walk.  Exactly-once / ordering '
     'for arbitrary batches is not decided.')
-FLOORS = {'C09.a': 10, 'C09.b': 2, 'C09.c': 2, 'C09.d': 1, 'C09.e': 1, 'C09.f': 4, 'C09.g': 2, 'C09.h': 3, 'C09.i': 5, 'C09.j': 3}
+FLOORS = {'C09.a': 10, 'C09.b': 2, 'C09.c': 2, 'C09.d': 1, 'C09.e': 1, 'C09.f': 4, 'C09.g': 2, 'C09.h': 3, 'C09.i': 5, 'C09.j': 4}
 FILES = c08.FILES + ['pyglove/ext/evolution/recombinators.py',
                      'pyglove/ext/evolution/mutators.py',
                      'pyglove/core/geno/base.py', 'pyglove/core/geno/categorical.py']
@@ -755,6 +755,29 @@ def rule_j(ctx):
       problems.append(f'line {st.lineno}: buckets are keyed by `{A.unparse(srcs[0], 40) if srcs else "?"}`, not by id(receiver)')
   ctx.ob('C09.j', f.fq + '#receiver-identity', not problems,
          'the receivers of one dispatch are told apart by identity (id), not by path or content', f.loc, '; '.join(problems))
+  # (4) notify_parents=False stops the DELIVERY at self; the content of the ancestors has
+  # changed all the same: their caches are reset before the dispatch loop is left early
+  f = idx.func('pyglove.core.symbolic.base.Symbolic._notify_field_updates')
+  g = C.cfg_of(f.node)
+  brk = [k for k in g.nodes if k.kind in ('break', 'stmt') and isinstance(k.ast, ast.Break)]
+  np_tests = [k for k in g.nodes if k.kind == 'test' and 'notify_parents' in A.unparse(k.ast)]
+  resets = lambda k: k.ast is not None and any((A.call_name(c) or '').split('.')[-1] == '_sym_reset_content_caches' for c in k.calls())
+  ok4 = None
+  if np_tests:
+    ok4 = True
+    for t in np_tests:
+      for m2, lab in t.succ:
+        if lab == 'false':      # `not notify_parents` desugars to the false edge of `notify_parents`
+          no_parent = {(k.id, m3.id, l3) for k in g.nodes if k.kind == 'test' and 'sym_parent' in A.unparse(k.ast)
+                       and isinstance(k.ast, ast.Compare) and A.unparse(k.ast.comparators[0]) == 'None'
+                       for m3, l3 in k.succ if l3 == ('false' if isinstance(k.ast.ops[0], ast.IsNot) else 'true')}
+          seen4, _ = g.reach(m2, blocked_nodes={k.id for k in g.nodes if resets(k)}, blocked_edges=no_parent, follow_exc=False)
+          seen4.add(m2.id)
+          if g.exit.id in seen4 and not resets(m2):
+            ok4 = False
+  ctx.ob('C09.j', f.fq + '#ancestors-when-not-notified', bool(ok4),
+         'when notify_parents=False ends the dispatch at self, the caches of the ancestors are reset before leaving', f.loc,
+         'the dispatch stops at self and the ancestors keep their cached is_partial / sym_missing / sym_nondefault')
   f = idx.func('pyglove.core.symbolic.base.Symbolic.sym_rebind')
   upd = {nm for st in ast.walk(f.node) if isinstance(st, ast.Assign) and isinstance(st.value, ast.Call)
          and (A.call_name(st.value) or '') == 'self._sym_rebind' for nm in A.assigned_names(st.targets[0])}
